@@ -45,3 +45,31 @@ Theorem C09_used_key_never_lost : forall evs k out key, accounted key k out ->
   accounted key (fst (krun k evs out)) (snd (krun k evs out)).
 Proof. exact used_key_never_lost. Qed.
 Print Assumptions C09_used_key_never_lost.
+
+(* first half over whole histories, at the level of key values: in every history after a key exchange in which drawn
+   exponents and the next keys the peer announces are new, whatever waits for disclosure - exactly what the next data
+   message discloses (C09_send_discloses_all_pending) - is a key the discloser accepts nothing under any more: no key
+   pair it can still look up has it as its receiving MAC key; and it stays so after the disclosing message *)
+From OTR Require Import Proto.Ratchet Proto.RatchetKeys Proto.DiscloseSound.
+Theorem C09_disclosed_keys_are_dead : forall evs a1 a2 b1 out,
+  ours a1 -> ours a2 -> a1 <> a2 -> theirs b1 ->
+  fresh_hist (after_ake a1 a2 b1) [a1; a2] [b1] evs ->
+  let k := fst (krun (after_ake a1 a2 b1) evs out) in
+  forall key, In key (oldMACKeys k) -> forall o t keys, sessionKeysFor k o t = Ok keys -> receivingKey keys <> key.
+Proof. exact disclosed_keys_are_dead. Qed.
+Print Assumptions C09_disclosed_keys_are_dead.
+
+Theorem C09_disclosed_keys_stay_dead : forall k UO UT h flag pl d k' xk, DI k UO UT -> genDataMsg k h flag pl = Ok (d, k', xk) ->
+  forall key, In key (d_old d) -> forall o t keys, sessionKeysFor k' o t = Ok keys -> receivingKey keys <> key.
+Proof. exact disclosed_keys_stay_dead. Qed.
+Print Assumptions C09_disclosed_keys_stay_dead.
+
+Theorem C09_invariant_over_histories : forall evs k UO UT out, DI k UO UT -> fresh_hist k UO UT evs ->
+  exists UO' UT', DI (fst (krun k evs out)) UO' UT'.
+Proof. exact DI_history. Qed.
+Print Assumptions C09_invariant_over_histories.
+
+Example C09_history_example :
+  fresh_hist (after_ake 2 4 1) [2; 4] [1] ex_hist /\
+  length (oldMACKeys (fst (krun (after_ake 2 4 1) ex_hist []))) = 2%nat.
+Proof. exact ex_hist_fresh_and_pending. Qed.
